@@ -1,10 +1,10 @@
-\* quick exhaustive design run of the property-respecting design (no deviation), EventSystem used directly; bin/checks_conc.py generates its variants (design_configs)
+\* the indexer service's two loops
 SPECIFICATION MCSpec
 CONSTANTS
   NTopics = 1
-  NClients = 2
+  NClients = 0
   Rounds = 1
-  MaxEvents = 1
+  MaxEvents = 0
   MaxPolls = 0
   MaxTicks = 0
   MaxFires = 0
@@ -13,8 +13,8 @@ CONSTANTS
   SpinTopics = {}
   BufCap = 1
   RespCap = 1
-  WithIndexer = FALSE
-  MaxHeaders = 0
+  WithIndexer = TRUE
+  MaxHeaders = 3
   TraceMode = FALSE
 INVARIANTS NoCrash NoLostTopic LockInv NoLeakedPublisher TopicAgreement IndexerInv
 CHECK_DEADLOCK TRUE
